@@ -39,7 +39,7 @@ def run(ctx, model_ok):
     ctx.evaluations = sum(len(f) + 1 for _, f in files)
     ctx.rule = ('EVERY truncation offset 0..len of generated version-2 dumps, version-3 dumps (chunked events, fillers with marker '
                 'prefixes, thread maps with trailing bytes, tagged blocks) and damaged dumps, parsed through a counting reader with '
-                'a read budget; non-trivial = distinct (file, offset) whose truncated parse reports >= 1 event and ends differently '
+                'a read budget; plus the command line (traces / kevents / callstacks / logs with random options and --count in {0,1,2,3,7,1000,-1}, on whole and on cut dumps) against the API; non-trivial = distinct (file, offset) whose truncated parse reports >= 1 event and ends differently '
                 'from the full parse')
     coq = []
     worst_ratio = 0.0
@@ -109,6 +109,11 @@ def run(ctx, model_ok):
                     break
     ctx.samples = [{'kind': files[0][0], 'len': len(files[0][1]), 'cut': 300,
                     'impl': res[0][min(300, len(files[0][1]))]}]
+    # the command line: --count prints the first `count` lines of what the API yields (c06_count), on whole and on cut dumps
+    from . import cli_common
+    ncli = 24 if ctx.quick() else 400
+    cli_common.run(ctx, ['traces', 'kevents', 'callstacks', 'logs'], ncli)
+    cli_common.run(ctx, ['traces', 'kevents', 'callstacks', 'logs'], ncli, truncated=True)
     if model_ok:
         bad, errors = vlib.run_model_cases('C06', cc.HEADER, 'dcase', 'dcheck', coq, per_file=1)
         ctx.traces_validated = sum(len(f) + 1 for i, (_, f) in enumerate(files) if i not in bad)
